@@ -166,7 +166,9 @@ def shard(ctx):
     nprog = 8 if ctx.quick else 260
     cover = ctx.res.extra.setdefault("class_context_programs", core.Counter())
     for t in range(nprog):
-        doc = gen.gen_doc(rng)
+        # every third program runs on a document whose keys need quotes in a query (`"Fn::GetAtt"`, `'a-b'`): quoted keys then start clauses,
+        # filters and blocks in every layout
+        doc = gen.gen_doc(rng) if t % 3 else gen.gen_doc(rng, keys=["a", "b", "Type", "Properties", "Resources", "Fn::GetAtt", "a-b", "with space", "Tags", "k"])
         docs = json.dumps(doc)
         f = gen.gen_file(rng, doc, o)
         counter = VStyle()
@@ -270,6 +272,29 @@ def shard(ctx):
                 ctx.violation("this-matrix:verdict", "`%s` is %s but `%s` is %s" % (pairs[i][0], sa[bad[0]], pairs[i][1], sb.get(bad[0])), {"kind": "pair", "a": A, "b": B, "data": tdocs})
             else:
                 ctx.res.distinct.add(("this-matrix", tuple(sorted(set(sa.values())))))
+    # ---- fixed layout pairs around quoted keys: a filter / block / clause that STARTS with a quoted key, with and without blanks after `[`
+    if ctx.mine(3):
+        canon_q = ('rule q {\n    x[ "Fn::GetAtt" exists ]."Fn::GetAtt"[1] == "GroupId"\n    x[ "a-b" == 1 ].k exists\n    "with space" exists\n'
+                   '    x[ "a-b" == 1 or k == 2 ] !empty\n    x."a-b"[ "k" exists ] empty\n}\n')
+        variants_q = [canon_q.replace('[ "', '["').replace(' ]', ']'), canon_q.replace('"', "'"),
+                      canon_q.replace('[ "', '[\n        "').replace(' ]', '\n    ]'), canon_q.replace('[ "', '[ # c\n        "'), canon_q.replace('[ "', '[\t"'),
+                      canon_q.replace('x[ ', 'x[').replace('."a-b"[ ', '."a-b"[')]
+        base_ast, rb = parse_tree(ctx.w, canon_q)
+        ctx.res.cases += 1
+        if base_ast is None:
+            ctx.violation("quoted-key-layouts:canonical-rejected", "the canonical text does not parse: %s" % (rb.get("emsg") or rb.get("err") or "")[:200], {"kind": "variant", "canon": canon_q, "variant": canon_q, "data": "{}"})
+        else:
+            for vq in variants_q:
+                va, rv_ = parse_tree(ctx.w, vq)
+                ctx.res.cases += 1
+                ctx.res.counts["quoted_key_layout_variants"] += 1
+                if va is None:
+                    ctx.violation("quoted-key-layouts:variant-rejected", "a layout / quoting variant of a filter that starts with a quoted key does not parse: %s" % (rv_.get("emsg") or rv_.get("err") or "")[:200],
+                                  {"kind": "variant", "canon": canon_q, "variant": vq, "data": "{}"})
+                elif va != base_ast:
+                    ctx.violation("quoted-key-layouts:ast-differs", "a layout / quoting variant parses to a different program", {"kind": "variant", "canon": canon_q, "variant": vq, "data": "{}"})
+                else:
+                    ctx.res.distinct.add(("quoted-key-layout", variants_q.index(vq)))
     # ---- type block == Resources.*[ Type == 'T' ] { ... } ; file-level clauses == rule default
     n = 120 if ctx.quick else 4000
     o2 = gen.Opts(refs=False, max_lines=3)
